@@ -83,14 +83,17 @@ def run(ck):
         tp = TimeAxis(0.0, nt, dt)
         pt = ReducedDensityMatrixPropagator(tp, ham, RT_t)
         po = ReducedDensityMatrixPropagator(tp, ham2, RT_o)
-        dt_ = numpy.array(pt.propagate(ReducedDensityMatrix(data=rho0.copy()), Nref=nref).data)
-        do_ = numpy.array(po.propagate(ReducedDensityMatrix(data=rho0.copy()), Nref=nref).data)
+        # every expansion order the propagator offers (the theorem is for every order): rotate deterministically
+        meth, order = (("short-exp", 4), ("short-exp-2", 2), ("short-exp-6", 6), ("short-exp-4", 4))[s % 4]
+        dt_ = numpy.array(pt.propagate(ReducedDensityMatrix(data=rho0.copy()), method=meth, Nref=nref).data)
+        do_ = numpy.array(po.propagate(ReducedDensityMatrix(data=rho0.copy()), method=meth, Nref=nref).data)
         if numpy.abs(dt_ - do_).max() > 1e-9:
-            ck.fail("propagate:ops-vs-tensor", "operator-form and tensor-form propagation differ", inp, float(numpy.abs(dt_ - do_).max()))
+            ck.fail("propagate:ops-vs-tensor", "operator-form and tensor-form propagation differ (method %s)" % meth, dict(inp, method=meth),
+                    float(numpy.abs(dt_ - do_).max()))
         # model: needs K, L, Ld in the basis in which they are held (the site basis after leaving the context)
         Heff = numpy.array(ham2.get_RWA_data()) if ham2.has_rwa else numpy.array(ham2.data)
         Km, Lm, Ld = numpy.array(RT_o.Km), numpy.array(RT_o.Lm), numpy.array(RT_o.Ld)
-        emit("propo %d 4 %d %d %s %d %s %s %s %s %s" % (n, nref, nt, cfrac(dt), Km.shape[0], cv(Heff), cv(Km), cv(Lm), cv(Ld), cv(rho0)), do_)
+        emit("propo %d %d %d %d %s %d %s %s %s %s %s" % (n, order, nref, nt, cfrac(dt), Km.shape[0], cv(Heff), cv(Km), cv(Lm), cv(Ld), cv(rho0)), do_)
         # conversion to a tensor afterwards
         RT_o.convert_2_tensor()
         dev = numpy.abs(numpy.array(RT_o.data) - numpy.array(RT_t.data)).max()
@@ -193,11 +196,12 @@ def run(ck):
         rho0, _ = SY.rand_state(numpy, rng, n)
         rho0[0, :] = 0; rho0[:, 0] = 0; rho0 = rho0 / numpy.trace(rho0)
         tpb = TimeAxis(0.0, 15, 1.0)
+        methb = ("short-exp-2", "short-exp-6", "short-exp", "short-exp-4")[s3 % 4]
         ref = {}
         for td in (False, True):
             for ops in (False, True):
                 for inside in (False, True):
-                    inp = {"sites": nmol, "time_dependent": td, "as_operators": ops, "inside_eigenbasis_of": inside}
+                    inp = {"sites": nmol, "time_dependent": td, "as_operators": ops, "inside_eigenbasis_of": inside, "method": methb}
                     ck.case(("ctx-prop", s3, td, ops, inside), nontrivial=inside, kind="propagate-in-context")
                     try:
                         T_, h_ = aggb.get_RelaxationTensor(tb, relaxation_theory="standard_Redfield", time_dependent=td, as_operators=ops)
@@ -205,9 +209,9 @@ def run(ck):
                         pr_ = ReducedDensityMatrixPropagator(tpb, h_, T_)
                         if inside:
                             with eigenbasis_of(h_):
-                                ev = pr_.propagate(rr)
+                                ev = pr_.propagate(rr, method=methb)
                         else:
-                            ev = pr_.propagate(rr)
+                            ev = pr_.propagate(rr, method=methb)
                         d_ = numpy.array(ev.data)
                     except Exception as e:
                         ck.fail("raises:context:propagate", "propagation raised %r" % (e,), inp)
